@@ -83,8 +83,10 @@ fn dyn_expr(rng: &mut Rng, depth: usize, out: &mut Vec<Expect>, desc: &mut Vec<S
       (l.written.clone(), Some((format!("str:{}", l.value), l.written)))
     }
     3 => {
-      let l = plain_lit(rng);
-      let w = format!("`{}`", l.value);
+      // a template without substitutions is a plain string: its cooked (unescaped) text counts
+      let l = gen_lit(rng);
+      let body = &l.written[1..l.written.len() - 1];
+      let w = format!("`{}`", body);
       (w.clone(), Some((format!("str:{}", l.value), w)))
     }
     4 => {
